@@ -141,9 +141,9 @@ def _collect(body, lossy=False, unsafe=True):
             elif k == "OverflowNeg":
                 out.append(Oblig(body, bb, "OVF", "Neg", t, line=t["line"], desc="-%s" % op_str(m["a"]), exp=t.get("expk", "")))
             elif k == "DivisionByZero":
-                out.append(Oblig(body, bb, "DIV0", "Div", t, line=t["line"], desc="divisor %s" % op_str(m["a"]), exp=t.get("expk", "")))
+                out.append(Oblig(body, bb, "DIV0", "Div", t, line=t["line"], desc="dividend %s" % op_str(m["a"]), exp=t.get("expk", "")))
             elif k == "RemainderByZero":
-                out.append(Oblig(body, bb, "DIV0", "Rem", t, line=t["line"], desc="divisor %s" % op_str(m["a"]), exp=t.get("expk", "")))
+                out.append(Oblig(body, bb, "DIV0", "Rem", t, line=t["line"], desc="dividend %s" % op_str(m["a"]), exp=t.get("expk", "")))
             elif k == "BoundsCheck":
                 out.append(Oblig(body, bb, "BOUNDS", "Index", t, line=t["line"], desc="index %s < len %s" % (op_str(m["index"]), op_str(m["len"])), exp=t.get("expk", "")))
             else:
